@@ -129,9 +129,11 @@ func (r *Report) Finish(p *Prog, verifDir string, known []KnownFinding) int {
 			count[o.Rule]++
 		}
 	}
+	// the declared floor is the instance count confirmed by reading; the armed floor leaves
+	// room for behaviour-preserving edits that merge duplicated sites (60 % above five instances)
 	for _, name := range r.ruleList {
-		if count[name] < r.floors[name] {
-			r.Fail(name, "instance-floor", "", fmt.Sprintf("rule matched %d instances, fewer than the %d confirmed by reading: the rule would pass vacuously", count[name], r.floors[name]))
+		if count[name] < EffectiveFloor(r.floors[name]) {
+			r.Fail(name, "instance-floor", "", fmt.Sprintf("rule matched %d instances, fewer than the armed floor %d (%d were confirmed by reading): the rule would pass vacuously", count[name], EffectiveFloor(r.floors[name]), r.floors[name]))
 			count[name]++
 		}
 	}
@@ -210,7 +212,7 @@ func (r *Report) Finish(p *Prog, verifDir string, known []KnownFinding) int {
 	}
 	ruleRows := []map[string]any{}
 	for _, name := range r.ruleList {
-		ruleRows = append(ruleRows, map[string]any{"rule": name, "statement": r.rules[name], "floor": r.floors[name], "instances": count[name], "by_status": perRule[name]})
+		ruleRows = append(ruleRows, map[string]any{"rule": name, "statement": r.rules[name], "floor": r.floors[name], "floor_armed": EffectiveFloor(r.floors[name]), "instances": count[name], "by_status": perRule[name]})
 	}
 	distinct := map[string]bool{}
 	for _, o := range r.Obl {
@@ -282,6 +284,14 @@ func (r *Report) Finish(p *Prog, verifDir string, known []KnownFinding) int {
 		return 1
 	}
 	return 0
+}
+
+// EffectiveFloor is the armed vacuity floor for a declared floor.
+func EffectiveFloor(declared int) int {
+	if declared <= 5 {
+		return declared
+	}
+	return (declared*6 + 9) / 10
 }
 
 func uniq(s []string) []string {
